@@ -395,12 +395,14 @@ theorem winv_commits (cfg : WCfg) (w : World) (tag : Tag) (dst : SiteId)
 
 /-! ### events the theorems range over -/
 
-/-- the bookkeeping request propagates as itself or not at all (the keys it
-    names carry no expiry: the tool sets none, clients stay out of the namespace) -/
+/-- the bookkeeping request propagates not at all, or as ONE stand-alone command
+    of the bookkeeping vocabulary — itself (the keys it names carry no expiry:
+    the tool sets none, clients stay out of the namespace), or, for the DEL of
+    a marker alone, the deletion of that marker by its expiry -/
 def BookClean (cfg : WCfg) (w : World) (src : SiteId) (bk : Bookkeeping) : Prop :=
   let st := w.site src.other
   (execCmds (cfg.redis src.other) st.now st.store [bk.toCmd]).2 = [] ∨
-  (execCmds (cfg.redis src.other) st.now st.store [bk.toCmd]).2 = [bk.toCmd]
+  ∃ bk' : Bookkeeping, bk'.Valid ∧ (execCmds (cfg.redis src.other) st.now st.store [bk.toCmd]).2 = [bk'.toCmd]
 
 def EvOK (cfg : WCfg) (w : World) : Ev → Prop
   | .client _ _ cmds => ∀ c ∈ cmds, ClientOK cfg.parser c
@@ -592,16 +594,17 @@ theorem step_book (cfg : WCfg) (hf : FOK cfg.parser.filter) (w : World) (hinv : 
   intro b hb pst hi
   unfold BookClean at hc
   simp only at hc
-  have hsingle : b = .single bk.toCmd := by
-    rcases hc with h | h
+  obtain ⟨bk', hv', hsingle⟩ : ∃ bk' : Bookkeeping, bk'.Valid ∧ b = .single bk'.toCmd := by
+    rcases hc with h | ⟨bk', hv', h⟩
     · rw [h] at hb
       unfold toBlocks at hb
       split at hb <;> simp at hb
-    · rw [h] at hb
+    · refine ⟨bk', hv', ?_⟩
+      rw [h] at hb
       unfold toBlocks at hb
       split at hb <;> simpa using hb
   rw [hsingle]
-  exact bookkeeping_cmd_quiet cfg.parser hf bk hv pst hi
+  exact bookkeeping_cmd_quiet cfg.parser hf bk' hv' pst hi
 
 /-- what the link record looks like after an emission -/
 def linkAfter (l : LinkSt) (pst' : PState) (tag : Tag) (e : Emit) : LinkSt :=
